@@ -77,6 +77,32 @@ def main : IO Unit := do
     chk2 "chunker: next cut target (chunk size 1)" (fun a b => n (Gen.ch_next_end_raw 9 2 1 a b)) (fun a b => n (max b (a + 1 + 1))) "chunk start, line end",
     chk2 "chunker: clamp to the file size" (fun b fs => n (Gen.ch_clamp_end fs 2 1 0 b)) (fun b fs => n (min b fs)) "cut target, file size",
     chk2 "chunker: exit test" (fun a fs => s (Gen.ch_done fs 2 1 a 0)) (fun a fs => s (decide (a ≥ fs))) "next chunk start, file size"]
+  let zi (k : Nat) : Int := (k : Int) - 2
+  let fc (c : Gen.FConst) : String := match c with
+    | .posMax => "f64::MAX" | .negMax => "f64::MIN" | .minPositive => "f64::MIN_POSITIVE" | .nan => "NaN" | .posInf => "INFINITY"
+    | .negInf => "NEG_INFINITY" | .epsilon => "EPSILON"
+  let tests := tests ++ [
+    chk2 "bigWig summary: sum added by a value" (fun l v => z (Gen.ws_sum_add l (zi v) 0 0)) (fun l v => z ((l : Int) * zi v)) "bases, value + 2",
+    chk2 "bigWig summary: sum of squares added by a value" (fun l v => z (Gen.ws_sumsq_add l (zi v) 0 0)) (fun l v => z ((l : Int) * zi v * zi v)) "bases, value + 2",
+    chk2 "bigWig summary: bases added by a value" (fun l v => z (Gen.ws_bases_add l (zi v) 0 0)) (fun l _ => z (l : Int)) "bases, value + 2",
+    chk2 "bigWig summary: running minimum" (fun m v => z (Gen.ws_min 1 (zi v) (zi m) 0)) (fun m v => z (min (zi m) (zi v))) "minimum + 2, value + 2",
+    chk2 "bigWig summary: running maximum" (fun m v => z (Gen.ws_max 1 (zi v) 0 (zi m))) (fun m v => z (max (zi m) (zi v))) "maximum + 2, value + 2",
+    chk2 "bigWig summary (single pass): running minimum starts from" (fun _ _ => fc Gen.ws_min_init_full) (fun _ _ => "f64::MAX") "-, -",
+    chk2 "bigWig summary (single pass): running maximum starts from" (fun _ _ => fc Gen.ws_max_init_full) (fun _ _ => "f64::MIN") "-, -",
+    chk2 "bigWig summary (two pass): running minimum starts from" (fun _ _ => fc Gen.ws_min_init_nozoom) (fun _ _ => "f64::MAX") "-, -",
+    chk2 "bigWig summary (two pass): running maximum starts from" (fun _ _ => fc Gen.ws_max_init_nozoom) (fun _ _ => "f64::MIN") "-, -",
+    chk2 "bigBed summary: first piece, sum" (fun l d => z (Gen.bs_first_sum l d 0 0)) (fun l d => z ((l : Int) * d)) "length, depth",
+    chk2 "bigBed summary: first piece, sum of squares" (fun l d => z (Gen.bs_first_sumsq l d 0 0)) (fun l d => z ((l : Int) * d * d)) "length, depth",
+    chk2 "bigBed summary: first piece, bases / min / max" (fun l d => z (Gen.bs_first_bases l d 0 0) ++ "/" ++ z (Gen.bs_first_min l d 0 0) ++ "/" ++ z (Gen.bs_first_max l d 0 0))
+      (fun l d => z (l : Int) ++ "/" ++ z (d : Int) ++ "/" ++ z (d : Int)) "length, depth",
+    chk2 "bigBed summary: later piece, sum" (fun l d => z (Gen.bs_sum_add l d 0 0)) (fun l d => z ((l : Int) * d)) "length, depth",
+    chk2 "bigBed summary: later piece, sum of squares" (fun l d => z (Gen.bs_sumsq_add l d 0 0)) (fun l d => z ((l : Int) * d * d)) "length, depth",
+    chk2 "bigBed summary: later piece, bases" (fun l d => z (Gen.bs_bases_add l d 0 0)) (fun l _ => z (l : Int)) "length, depth",
+    chk2 "bigBed summary: running min / max" (fun m d => z (Gen.bs_min 1 d m 0) ++ "/" ++ z (Gen.bs_max 1 d 0 m)) (fun m d => z (min (m : Int) d) ++ "/" ++ z (max (m : Int) d)) "current, depth",
+    chk2 "region statistics: bases and sum added" (fun n v => z (Gen.st_bases_add n (zi v) 0 0) ++ "/" ++ z (Gen.st_sum_add n (zi v) 0 0)) (fun n v => z (n : Int) ++ "/" ++ z ((n : Int) * zi v)) "bases, value + 2",
+    chk2 "region statistics: running min / max" (fun m v => z (Gen.st_min 1 (zi v) (zi m) 0) ++ "/" ++ z (Gen.st_max 1 (zi v) 0 (zi m))) (fun m v => z (min (zi m) (zi v)) ++ "/" ++ z (max (zi m) (zi v))) "current + 2, value + 2",
+    chk2 "region statistics: running minimum starts from" (fun _ _ => fc Gen.st_min_init) (fun _ _ => "f64::MAX") "-, -",
+    chk2 "region statistics: running maximum starts from" (fun _ _ => fc Gen.st_max_init) (fun _ _ => "f64::MIN") "-, -"]
   for t in tests do
     if (← t) then return
   IO.println "NOCEX"
